@@ -121,16 +121,18 @@ def classify_crash(text):
     """Classifies a worker crash. Returns (kind, key, excerpt).
     kind: 'panic' (library panic), 'race' (race detector report), 'harness', 'unknown'."""
     if "WARNING: DATA RACE" in text:
-        m = re.search(r"WARNING: DATA RACE.*?(?:\n\n\n|==================\n\Z|\Z)", text, re.S)
-        ex = m.group(0) if m else text[-4000:]
-        # key: the top library frame of each of the two conflicting accesses
-        tops = []
-        for blk in re.split(r"\n\s*\n", ex)[:2]:
-            fr = [f for f in re.findall(r"^\s+(github\.com/bluenviron/\S+?)\(\)", blk, re.M) if "verifsim" not in f]
-            if fr:
-                tops.append(fr[0].split("/")[-1])
-        key = "|".join(sorted(set(tops))) if tops else "unknown"
-        return "race", key, ex[:6000]
+        # every report of the run; the first one in which an access sits in a library frame decides. Reports whose two
+        # accesses are both harness code (state the scheduler reads at rest) say nothing about the library.
+        reports = re.findall(r"WARNING: DATA RACE.*?(?:==================|\Z)", text, re.S)
+        for ex in reports or [text[-4000:]]:
+            tops = []
+            for blk in re.split(r"\n\s*\n", ex)[:2]:
+                fr = [f for f in re.findall(r"^\s+(github\.com/bluenviron/\S+?)\(\)", blk, re.M) if "verifsim" not in f]
+                if fr:
+                    tops.append(fr[0].split("/")[-1])
+            if tops:
+                return "race", "|".join(sorted(set(tops))), ex[:6000]
+        return "harness", "", "data race between harness goroutines only:\n" + (reports[0] if reports else text)[:3000]
     m = re.search(r"^(panic: .*|fatal error: .*)$", text, re.M)
     if m:
         head = m.group(1)
